@@ -139,9 +139,13 @@ def check_conc(prop, tier):
         if prop == "C08":
             import queue_checks
             drift += queue_checks.queue_conc_part(res, work, tier, rng)
+        if prop == "C14":
+            drift += uuid_part(res, work, tier, rng)
         if drift and not res.violations:
             for d in (s["drifts"] + s2["drifts"])[:3]:
                 print("DRIFT property=%s line=%d scenario=%d run=%d (step not explained by the model; monitors hold)" % (prop, d["line"], d["sc"], d["run"]))
+            if mism:
+                print("DRIFT property=%s: %d replayed model behaviours end in a state other than the model's" % (prop, mism))
             res.level = "exploration"
             res.cov["evaluations"] = s["execs"] + s2["execs"]
             res.cov["distinct_nontrivial"] = s["execs"] + s2["execs"]
@@ -151,6 +155,28 @@ def check_conc(prop, tier):
         return res.finish()
     finally:
         work.cleanup()
+
+
+def uuid_part(res, work, tier, rng):
+    """the generator on its own: Uuid.tla model-checked, every interleaving of the real next() enumerated"""
+    cfg = os.path.join(SPEC, "mc", "Uuid.cfg")
+    r = require_ok(tlc("Uuid", cfg, work, workers=4), "model check of the id generator")
+    cfgw = write_cfg(work, "uuidw", "Uuid", subst={"Split": "TRUE"})
+    rw = tlc("Uuid", cfgw, work, workers=4)
+    if "Unique" not in rw["violated"]:
+        raise ToolError("non-vacuity: the split (load; store) generator must violate uniqueness")
+    res.add(states=r["distinct"], transitions=r["generated"], uuid_mc_states=r["distinct"])
+    hs = []
+    for ns in ["nil", "dns", "max", "6ba7b811-9dad-11d1-80b4-00c04fd430c8"]:
+        hs.append({"ns": ns, "threads": [2, 2, 2], "sched": {"mode": "all", "max": 200 if tier == "quick" else 5000}})
+        hs.append({"ns": ns, "threads": [3, 1, 2, 2], "sched": {"mode": "pct", "seed": seed() + 5, "runs": 50 if tier == "quick" else 1000}})
+    h = run_harness("uuid", hs, work, "uuid")
+    s = tv(h["trace"], "TraceUuid", "TraceUuid", work)
+    res.add(traces_validated_against_impl=s["execs"], events_validated=s["lines"], uuid_calls=s["calls"], uuid_drifts=len(s["drifts"]))
+    for f in s["fails"]:
+        res.violation("id generator: monitor %s failed at trace line %d (scenario %d, run %d)" % (f["mon"], f["line"], f["sc"], f["run"]),
+                      {"driver": "uuid", "scenario": hs[f["sc"]], "line": f["line"], "run": f["run"]})
+    return len(s["drifts"])
 
 
 def seq_cfg(work, name, base, invs, subst=None, emit=False):
@@ -243,6 +269,8 @@ def check_seq(prop, tier):
         if drift and not res.violations:
             for d in (s["drifts"] + s2["drifts"])[:3]:
                 print("DRIFT property=%s line=%d scenario=%d (call result/state not predicted by the model; the property's own monitor holds)" % (prop, d["line"], d["sc"]))
+            if mism:
+                print("DRIFT property=%s: %d replayed model histories end in a state other than the model's" % (prop, mism))
             res.level = "exploration"
             res.cov["evaluations"] = s["calls"] + s2["calls"]
             res.cov["distinct_nontrivial"] = s["execs"] + s2["execs"]
